@@ -155,7 +155,7 @@ def has_entry(ns, e):
 def run_raftsim(args, outdir, timeout=3000):
     shutil.rmtree(outdir, ignore_errors=True)
     os.makedirs(outdir)
-    rc, out, dt = sh("%s %s -out %s" % (RAFTSIM, args, outdir), cwd=outdir, timeout=timeout)
+    rc, out, dt = sh("%s -out %s %s" % (RAFTSIM, outdir, args), cwd=outdir, timeout=timeout)
     summ = None
     p = os.path.join(outdir, "summary.json")
     if os.path.exists(p):
